@@ -69,7 +69,7 @@ def sha(path):
 SEPS = '_./\n'
 def derive_excl(st, var, zre):
     for c in SEPS:
-        if re_excludes(zre, c): st.excl.setdefault(var.name, set()).add(c)
+        if re_excludes(zre, c): st.excl.setdefault(var.name, set()).add(c); st.derived.setdefault(var.name, set()).add(c)
 
 def walk(st, segn, items):
     """constructive decomposition of a structured segment along the chunk items (unique by the per-chunk lemma)"""
